@@ -103,6 +103,9 @@ def layout(cls, eff, n, m):
         return n + 1, (lambda key: int(key, 2) << 1)
     raise ValueError(cls)
 
+from harness.monitors import time_limit, InstanceTimeout   # noqa: E402
+_TIMED_OUT = {}
+
 
 def make_gate(cls, params, opt):
     from qclib.state_preparation.merge import MergeInitialize
@@ -137,15 +140,22 @@ def eval_case(ctx, cls, opt, n, keys, amps, types="complex", meta=None):
     if cls == "PivotInitialize":
         assert m >= (3 if eff["aux"] else 2)
     params = dict(zip(keys, typed(amps, types)))
+    if _TIMED_OUT.get(cls, 0) >= 2:
+        return True                  # already reported twice as non-terminating: do not spend 300 s on every further case
     try:
-        gate = make_gate(cls, params, opt)
-        definition = gate.definition
-        width = definition.num_qubits
-        exp_width, index_of = layout(cls, eff, n, m)
+        with time_limit(300):
+            gate = make_gate(cls, params, opt)
+            definition = gate.definition
+            width = definition.num_qubits
+            exp_width, index_of = layout(cls, eff, n, m)
         if width != exp_width:
             ctx.violation(f"{cls}: definition has {width} qubits, the register layout in the source gives {exp_width}", case)
             return False
         sv = np.asarray(Statevector(definition).data)
+    except InstanceTimeout:
+        _TIMED_OUT[cls] = _TIMED_OUT.get(cls, 0) + 1
+        ctx.violation(f"{cls}: the construction did not terminate within 300 s (instances of this size take about a second)", case)
+        return False
     except Exception as exc:
         ctx.violation(f"{cls} raised {type(exc).__name__}: {str(exc)[:120]}", case)
         return False
